@@ -19,3 +19,4 @@ import RosuModel.Props.C04DecodedObjectsToy
 import RosuModel.Props.C04DecodedObjectsIeee
 import RosuModel.Props.C04DecodedTiming
 import RosuModel.Props.C04DecodedTimingToy
+import RosuModel.Props.C04DecodedTimingIeee
